@@ -39,8 +39,8 @@ def structures(tier):
            ['A', 'S1:1', 'Lc1', 'S1:1=']]
     sel = [['S0:None'], ['S1:None'], ['S2:None'], ['A', 'S2:None']]
     if tier == 'thorough':
-        att += [['A', 'S1:1', 'L2', 'S1:1='], ['S1:1', 'A', 'S1:1='], ['A', 'A', 'A', 'A', 'S1:1'], ['A', 'A', 'A', 'S1:3'], ['L2', 'L2', 'S1:1'], ['A', 'A', 'S1:1', 'A', 'S1:2'],
-                ['A', 'A', 'A', 'A', 'S1:2']]
+        att += [['A', 'S1:1', 'L2', 'S1:1='], ['S1:1', 'A', 'S1:1='], ['A', 'A', 'A', 'A', 'S1:1'], ['A', 'A', 'A', 'S1:3'], ['L2', 'L2', 'S1:1'], ['A', 'A', 'S1:1', 'A', 'S1:2']]
+        # (['A', 'A', 'A', 'A', 'S1:2'] needs 12 min for one ordering shard: 4 announcements are covered with one frame)
         sel += [['A', 'A', 'S1:None']]
     for s in att + sel:
         na = sum(1 if x == 'A' else int(x.lstrip('Lc')) if x[0] == 'L' else 0 for x in s)
